@@ -169,22 +169,40 @@ class Scheduler:
         return self.deadlock
 
 
-class SchedSemaphore:
-    """threading.Semaphore(1) double; logs (tid, 'acq') / (tid, 'rel')"""
+class SchedSemaphore(threading.Semaphore):
+    """an instrumented `threading.Semaphore(1)`: the counter is the real one (the operations of threading.Semaphore are performed,
+    by the thread that holds the baton); what is added is the scheduling - a blocking acquire is offered to the scheduler only
+    while the counter is not 0 (so the real acquire never waits), a NON-blocking acquire and a release are always offered - and
+    the observation: every operation is logged, (tid, 'acq') / (tid, 'tryacq', got it?) / (tid, 'rel'), and the counter is read
+    after each (`sems`) and can be read at the end (`value`).  A release by a thread that holds nothing is performed like any
+    other: the counter then exceeds 1, as it would with the stock class."""
 
     def __init__(self, sched, log):
-        self.s, self.log, self.holder = sched, log, None
+        threading.Semaphore.__init__(self, 1)
+        self.s, self.log, self.sems = sched, log, []
+
+    @property
+    def value(self):
+        return self._value
 
     def acquire(self, blocking=True, timeout=None):
-        self.s.yield_point(lambda: self.holder is None)
-        self.holder = _local.tid
-        self.log.append([_local.tid, 'acq'])
-        return True
+        if blocking:
+            self.s.yield_point(lambda: self._value > 0)
+            ok = threading.Semaphore.acquire(self, False)
+            assert ok
+            self.log.append([_local.tid, 'acq'])
+        else:
+            self.s.yield_point()
+            ok = threading.Semaphore.acquire(self, False)
+            self.log.append([_local.tid, 'tryacq', ok])
+        self.sems.append(self._value)
+        return ok
 
-    def release(self):
+    def release(self, n=1):
         self.s.yield_point()
-        self.holder = None
+        threading.Semaphore.release(self, n)
         self.log.append([_local.tid, 'rel'])
+        self.sems.append(self._value)
 
     __enter__ = acquire
 
